@@ -42,6 +42,12 @@ class WeightedGraph:
             self.E[i, j] = value
             self.incoming[j].add(i)
             self.outgoing[i].add(j)
+        elif (i, j) in self.E:
+            # an existing edge is overwritten by zero (e.g. `G[i, j] += w` with
+            # weights that cancel): remove it rather than keeping the old value
+            del self.E[i, j]
+            self.incoming[j].discard(i)
+            self.outgoing[i].discard(j)
         return self
 
     def closure(self):
